@@ -1,7 +1,7 @@
 (** C07 — The thread pool never deadlocks, loses a wake-up or leaks workers.
     Statements only; each closed by [exact] of a lemma in Proofs/Pool*.v.
     See Properties/C06.v for what [reachable code_cfg scr s] quantifies over. *)
-From DivanV Require Import Base.Res Generated.Consts Model.Pool Proofs.Pool Proofs.PoolLive.
+From DivanV Require Import Base.Res Generated.Consts Model.Pool Proofs.Pool Proofs.PoolLive Proofs.PoolExamples.
 Import PoolM.
 
 (** Obligation on the generated constants ([== 1], [while], [> 0]). *)
@@ -24,6 +24,13 @@ Theorem C07_deadlock_free : forall scr s,
   exists l s', l <> ESpurious /\ step code_cfg s l = Some s'.
 Proof. exact (fun scr s => deadlock_free code_cfg scr s C07_cfg_good). Qed.
 Print Assumptions C07_deadlock_free.
+
+(** The same for the executable enumeration used by the explorer: the list of
+    enabled non-spurious labels of a reachable non-final state is not empty. *)
+Theorem C07_deadlock_free_enabled : forall scr s,
+  reachable code_cfg scr s -> final s = false -> enabled_labels code_cfg s <> [].
+Proof. exact (fun scr s => deadlock_free_enabled code_cfg scr s C07_cfg_good). Qed.
+Print Assumptions C07_deadlock_free_enabled.
 
 (** The lexicographic measure (broadcasts left; program counters + pending
     token) strictly decreases on every step that is not a spurious wake-up —
